@@ -117,27 +117,33 @@ def spanTextBranch (fixed : Bool) (hasBuf : Bool) (len : Nat) (bs : List UInt8) 
     let cp := storesAt 0 bs                                  -- strncpy(buffer, text + start.bytes, bytes)
     some ⟨bytes, if fixed then cp else cp ++ [(bytes, 0)]⟩     -- buffer[bytes] = 0  (before the repair)
 
-/-- `get_span_text` on a span. -/
+/-- The bytes the TEXT branch of `get_span_text` selects: from column `offs + offset` of the string, one
+    grapheme or (the quirk of the code: an absolute limit) up to column `span->cols`. -/
+def textSel (span : Cell) (offset : Int) (oneGrapheme : Bool) (chars : List (List UInt8)) : List UInt8 :=
+  let n := chars.length
+  let k := (span.offs + offset).toNat
+  let start := min k n
+  let stop := if oneGrapheme then min (start + 1) n
+              else if (start : Int) ≥ span.cols then start else min span.cols.toNat n
+  ((chars.drop start).take (stop - start)).flatten
+
+/-- TEXT branch and tail. -/
+def textResult (fixed hasBuf : Bool) (len : Nat) (sel : List UInt8) : CopyOut :=
+  match spanTextBranch fixed hasBuf len sel with
+  | none => ⟨-1, []⟩
+  | some c => spanTail hasBuf len c
+
+/-- `linemask_to_char[]` for the three masks `tickit_renderbuffer_hline_at(SINGLE, no caps)` produces. -/
+def lineChar (mask : Int) : Nat :=
+  if mask = 4 then 0x2576 else if mask = 64 then 0x2574 else if mask = 68 then 0x2500 else 0
+
+/-- `get_span_text` on a span (`none`: text outside the supported repertoire, no prediction). -/
 def getSpanText (fixed : Bool) (span : Cell) (offset : Int) (oneGrapheme : Bool) (hasBuf : Bool) (len : Nat) : Option CopyOut :=
   match span.state with
   | .cont => some ⟨-1, []⟩
   | .skip | .erase => some (spanTail hasBuf len ⟨0, []⟩)
-  | .text =>
-    match splitChars span.text with
-    | none => none                          -- outside the supported repertoire: no prediction
-    | some chars =>
-      let n := chars.length
-      let k := (span.offs + offset).toNat
-      let start := min k n
-      let stop := if oneGrapheme then min (start + 1) n
-                  else if (start : Int) ≥ span.cols then start else min span.cols.toNat n
-      let sel := ((chars.drop start).take (stop - start)).flatten
-      match spanTextBranch fixed hasBuf len sel with
-      | none => some ⟨-1, []⟩
-      | some c => some (spanTail hasBuf len c)
-  | .line =>
-    let cp : Nat := if span.mask = 4 then 0x2576 else if span.mask = 64 then 0x2574 else if span.mask = 68 then 0x2500 else 0
-    some (spanTail hasBuf len (utf8Put hasBuf len cp))
+  | .text => (splitChars span.text).map (fun chars => textResult fixed hasBuf len (textSel span offset oneGrapheme chars))
+  | .line => some (spanTail hasBuf len (utf8Put hasBuf len (lineChar span.mask)))
   | .char => some (spanTail hasBuf len (utf8Put hasBuf len span.cp.toNat))
 
 /-- `tickit_mockterm_get_display_text` over cells whose strings have the given lengths / bytes. -/
